@@ -282,8 +282,8 @@ func ruleAdv(p *Prog, r *Report) {
 func runC02(p *Prog, r *Report) {
 	r.Explain = append(r.Explain, "R-GLYPHS: no function reachable from LineWrapper.WrapParagraph/Prepare/WrapNextLine stores to a field of shaping.Glyph through shared storage: the glyph slices of candidate, committed and input runs share their backing arrays, so such a store changes the caller's shaped runs and every other candidate cut from them.")
 	ruleWho(p, r, whoCfg{rule: "R-GLYPHS", pkg: "shaping", typ: "Glyph",
-		entries:   []fnRef{{"shaping", "LineWrapper", "WrapParagraph"}, {"shaping", "LineWrapper", "Prepare"}, {"shaping", "LineWrapper", "WrapNextLine"}},
-		why:       "line wrapping must not alter glyph storage that it shares with the input runs and with other candidates", floorSeen: 30})
+		entries: []fnRef{{"shaping", "LineWrapper", "WrapParagraph"}, {"shaping", "LineWrapper", "Prepare"}, {"shaping", "LineWrapper", "WrapNextLine"}},
+		why:     "line wrapping must not alter glyph storage that it shares with the input runs and with other candidates", floorSeen: 30})
 	ruleAdv(p, r)
 	ruleCut(p, r)
 	wrapperState(p, r)
@@ -811,8 +811,8 @@ func runC08(p *Prog, r *Report) {
 		"R-OWN: the only functions of package shaping that store Output.VisualIndex are computeBidiOrdering and swapVisualOrder, and swapVisualOrder's two stores exchange the values of the same two locations (an ordering that is a permutation stays one).",
 		"R-ORDER: in postProcessLine every append to the line is followed on all paths to the return by computeBidiOrdering, and every read of VisualIndex is preceded by it.")
 	ruleWho(p, r, whoCfg{rule: "R-OWN", pkg: "shaping", typ: "Output", fields: []string{"VisualIndex"}, scopePkg: "shaping",
-		allowed:   []fnRef{{"shaping", "", "computeBidiOrdering"}, {"shaping", "", "swapVisualOrder"}},
-		why:       "only the bidi ordering routines may assign visual positions", floorSeen: 2})
+		allowed: []fnRef{{"shaping", "", "computeBidiOrdering"}, {"shaping", "", "swapVisualOrder"}},
+		why:     "only the bidi ordering routines may assign visual positions", floorSeen: 2})
 	ruleExchange(p, r, p.Func("shaping", "", "swapVisualOrder"), p.Field("shaping", "Output", "VisualIndex"))
 	ruleOrder(p, r)
 	r.Assumptions = append(r.Assumptions, "Output carries only the parity of the embedding level (Direction); x/text's bidi.Run exposes no level")
